@@ -17,6 +17,9 @@ for name in sorted(os.listdir(os.path.join(VERIF, "seeded"))):
         continue
     d = os.path.join(VERIF, "seeded", name)
     meta = json.load(open(os.path.join(d, "meta.json")))
+    if meta.get("obsolete"):
+        print(name, "| - | OBSOLETE (no longer breaks the property after a later fix)", flush=True)
+        continue
     prop = meta.get("property") or name[:3]
     wt = f"/tmp/sd_{name}"
     sh("git", "-C", "/repo", "worktree", "remove", "--force", wt)
